@@ -220,6 +220,8 @@ type Hist struct {
 	attrSpelling string
 	// fixedTracking: never change what is tracked
 	fixedTracking bool
+	// attrPad: .gitattributes is longer than 1 KiB
+	attrPad bool
 	// tagLikeBranch: tags may take the name of an existing branch
 	tagLikeBranch bool
 }
@@ -275,6 +277,12 @@ func (h *Hist) writeAttributes() {
 	sp := h.attrSpelling
 	if sp == "" {
 		sp = "filter=lfs diff=lfs merge=lfs -text"
+	}
+	if h.attrPad {
+		// a long attributes file (comments push it beyond 1 KiB)
+		for i := 0; i < 24; i++ {
+			fmt.Fprintf(&b, "# %02d: notes about how files in this repository are tracked\n", i)
+		}
 	}
 	for _, p := range h.Tracked {
 		fmt.Fprintf(&b, "%s %s\n", p, sp)
